@@ -20,7 +20,10 @@ ServerPhases == {"first-message", "after-login",                \* sent to a rea
                               \* it created (message-derived values are used long after the message was handled)
 ClientPhases == {"to-client-control", "to-client-workconn", "to-client-visitor", "to-client-login"}   \* sent to a real frpc by a scripted server
 Phases == ServerPhases \cup ClientPhases
-Cases == MsgTypes \X Classes \X Phases
+\* what a user (not a client) may send to the public ports of registered proxies: the vhost http port, the tcpmux CONNECT port,
+\* the vhost https port (first bytes of a TLS handshake)
+UserInputs == {"UserHTTP", "UserCONNECT", "UserTLS"}
+Cases == (MsgTypes \X Classes \X Phases) \cup (UserInputs \X Classes \X {"user-port"})
 
 \* outcome of one case on a running server / client: the process is still alive and still serves
 VARIABLE done
